@@ -93,6 +93,22 @@ theorem mono_tryLua {γ α} [PartialOrder γ] (f : γ → M α) (h : monotone f)
   apply MonoBind.bind_mono_left (m := StateT Store Option)
   exact h _ _ hab
 
+@[partial_fixpoint_monotone]
+theorem mono_tryTbc {γ α} [PartialOrder γ] (f : γ → M α) (h : monotone f) :
+    monotone (fun x => tryTbc (f x)) := by
+  unfold tryTbc
+  intro a b hab
+  apply MonoBind.bind_mono_left (m := StateT Store Option)
+  exact h _ _ hab
+
+@[partial_fixpoint_monotone]
+theorem mono_tryCo {γ} [PartialOrder γ] (f : γ → M (List Val)) (h : monotone f) :
+    monotone (fun x => tryCo (f x)) := by
+  unfold tryCo
+  intro a b hab
+  apply MonoBind.bind_mono_left (m := StateT Store Option)
+  exact h _ _ hab
+
 section helpers
 variable {γ : Type} [PartialOrder γ] (f : γ → Rec) (h : monotone f)
 include h
@@ -133,6 +149,14 @@ include h
   unfold closeVal; mono_solve
 @[partial_fixpoint_monotone] theorem mono_runBlock (c b) : monotone (fun x => runBlock (f x) c b) := by
   unfold runBlock; mono_solve
+@[partial_fixpoint_monotone] theorem mono_coRun (co c first log) : monotone (fun x => coRun (f x) co c first log) := by
+  unfold coRun; mono_solve
+@[partial_fixpoint_monotone] theorem mono_resumeCo (co a) : monotone (fun x => resumeCo (f x) co a) := by
+  unfold resumeCo; mono_solve
+@[partial_fixpoint_monotone] theorem mono_closeCo (d co) : monotone (fun x => closeCo (f x) d co) := by
+  unfold closeCo; mono_solve
+@[partial_fixpoint_monotone] theorem mono_yieldCo (d vs) : monotone (fun x => yieldCo (f x) d vs) := by
+  unfold yieldCo; mono_solve
 @[partial_fixpoint_monotone] theorem mono_builtinCall (d b a) : monotone (fun x => builtinCall (f x) d b a) := by
   unfold builtinCall; cases b <;> simp only [] <;> mono_solve
 end helpers
